@@ -1476,10 +1476,29 @@ func ruleStringPayloadNonNil(c *Ctx) {
 			return r
 		case *ssa.Call:
 			if b, ok := x.Call.Value.(*ssa.Builtin); ok && b.Name() == "append" {
-				if nonNil(x.Call.Args[0], at, depth+1, seen) == 1 {
+				baseState := nonNil(x.Call.Args[0], at, depth+1, seen)
+				if baseState == 1 {
 					return 1
 				}
-				return 0 // append(nil, xs...) is nil only when xs is empty: not decided
+				// what is appended is provably not empty: explicit elements, or a constant text
+				if len(x.Call.Args) == 2 {
+					switch y := x.Call.Args[1].(type) {
+					case *ssa.Slice:
+						if al, ok := y.X.(*ssa.Alloc); ok {
+							if at2, ok := deref(al.Type()).Underlying().(*types.Array); ok && at2.Len() > 0 {
+								return 1
+							}
+						}
+					case *ssa.Const:
+						if s, ok := constString(y); ok && s != "" {
+							return 1
+						}
+					}
+				}
+				if baseState == -1 {
+					return -1 // append(nil, xs...) with xs possibly empty is nil: `append([]byte(nil), old[:0]...)`
+				}
+				return 0 // base not decided
 			}
 			cals := c.CalleesData(x)
 			if len(cals) == 0 {
